@@ -230,7 +230,13 @@ class World(object):
     def digest(self):
         return (tuple((l['ident'], lib_digest(l['obj'])) for l in self.libs),
                 tuple((d['lib'], d['m']) for d in self.decs),
-                tuple((e['lib'], e['dec'], repr(getattr(e['obj'], 'name', None)),
+                # the harness-side facts the oracle uses (which molecule the
+                # estimate is FOR, whether it was created stale, whether its
+                # library was merged into afterwards) are part of the state:
+                # two histories may only be merged if the oracle treats their
+                # futures alike
+                tuple((e['lib'], e['dec'], e['m'], e['stale'], e['merged_after'],
+                       e['ident'], repr(getattr(e['obj'], 'name', None)),
                        len(getattr(e['obj'], 'correlations', ())))
                       for e in self.ests),
                 global_digest())
